@@ -533,3 +533,53 @@ def rule_perm_tracking(ctx):
                 r.ok(f"{q}[{kind} {src_of(idx)}]", sample={"method": q, "access": f"{kind} self.qubits[{src_of(idx)}]", "index kind": "physical" if "phys" in ikinds else "neutral"})
     r.floor(n, 3, "accesses of self.qubits by position")
     return r
+
+
+def rule_ctor_binding(ctx):
+    r = RuleResult(
+        "ctor-binding",
+        "the constructors of the circuit classes hand their options to the base constructor under the right name: a positional "
+        "argument that is a plain name lands in the base parameter of the same name whenever the base has one — a name that binds to a "
+        "*different* parameter while the base also has a parameter of that name is an option delivered to the wrong slot (and its own "
+        "slot silently keeps the default)",
+    )
+    n = 0
+    for modname in ("quimb.tensor.circuit.core", "quimb.tensor.circuit.exact", "quimb.tensor.circuit.mps", "quimb.tensor.circuit.peps", "quimb.tensor.circuit.pepo"):
+        m = ctx.prog.modules.get(modname)
+        if m is None:
+            continue
+        for c in m.classes.values():
+            f = c.methods.get("__init__")
+            if f is None or f.cls is not c:
+                continue
+            for call in ast.walk(f.node):
+                if not (isinstance(call, ast.Call) and isinstance(call.func, ast.Attribute) and call.func.attr == "__init__"
+                        and isinstance(call.func.value, ast.Call) and isinstance(call.func.value.func, ast.Name) and call.func.value.func.id == "super"):
+                    continue
+                base = None
+                for k in c.mro[1:]:
+                    g = k.methods.get("__init__")
+                    if g is not None and g.cls is k:
+                        base = g
+                        break
+                if base is None:
+                    continue
+                n += 1
+                pos = [p for p in base.posparams if p != "self"]
+                allp = set(base.params)
+                bad = []
+                for i, a in enumerate(call.args):
+                    if isinstance(a, ast.Starred) or i >= len(pos):
+                        break
+                    if isinstance(a, ast.Name) and a.id != pos[i] and a.id in allp:
+                        bad.append((a.id, pos[i]))
+                q = f"{c.name}.__init__"
+                if bad:
+                    for x, slot in bad:
+                        r.bad(Finding("ctor-binding", q, f"`{src_of(call)[:70]}` passes `{x}` positionally into the base parameter `{slot}`; {base.qualname} also has a parameter "
+                                                         f"`{x}`, which keeps its default: the caller's `{x}` never takes effect",
+                                      where=f"{f.module.relpath}:{call.lineno}", operand=f"{x}->{slot}"))
+                else:
+                    r.ok(q, sample={"class": c.name, "base": base.qualname, "positional": [src_of(a)[:20] for a in call.args]})
+    r.floor(n, 3, "super().__init__ calls in the circuit classes")
+    return r
